@@ -169,4 +169,5 @@ def _mk(family):
 
 
 for _f in FAMILIES_ALL:
-    _mk(_f)
+    if _f != 'msgpackrpc':       # positional arguments: absence and repetition of a named member cannot be spelled
+        _mk(_f)
